@@ -13,7 +13,7 @@ Template directives (lines starting with `//@`):
       //@loopexit <n>                       (… inserted right after loop n)
       //@nested <fn name> <ret name>        (following plain lines: contract of a fn item nested in the body)
       //@deimpl                             (X11: impl-Trait arguments become named generic parameters)
-      //@closure <nth> `<closure text>` | <typed params> | <ret: Type>   (following lines: the closure's ensures; X10)
+      //@closure <nth|*|?> `<closure text>` | <typed params> | <ret: Type>   (following lines: the closure's ensures; X10; `*` = every occurrence, at least one; `?` = every occurrence, none allowed: the hint follows the closure if a refactor moves it to a sibling method)
       //@entry                              (following plain lines: proof text inserted at the start of the body; no anchor)
   //@end
 Everything else is copied through (prelude, spec functions, lemmas, impl headers).
@@ -121,9 +121,9 @@ def expand(unit, repo=None):
                     elif cmd == 'spec': cur = ('spec',)
                     elif cmd == 'entry': cur = ('entry',)
                     elif cmd == 'closure':
-                        mm = re.match(r'(\d+|\*)\s+`(.*)`\s*\|\s*(.*?)\s*\|\s*(.*?)\s*$', arg)
+                        mm = re.match(r'(\d+|\*|\?)\s+`(.*)`\s*\|\s*(.*?)\s*\|\s*(.*?)\s*$', arg)
                         if not mm: raise ExtractError('bad directive: ' + l)
-                        cur = ('closure', 0 if mm.group(1) == '*' else int(mm.group(1)), mm.group(2), mm.group(3), mm.group(4))
+                        cur = ('closure', 0 if mm.group(1) == '*' else -1 if mm.group(1) == '?' else int(mm.group(1)), mm.group(2), mm.group(3), mm.group(4))
                     elif cmd == 'deimpl': ann['deimpl'] = True
                     elif cmd == 'nested': cur = ('nested', arg.split()[0], arg.split()[1])
                     elif cmd in ('loopentry', 'loopexit'): cur = (cmd, int(arg.split()[0]))
